@@ -7,7 +7,11 @@ S = os.path.join(HERE, "seeded")
 hist = json.load(open(os.path.join(S, "HISTORY.json")))["first_run"]
 rows = []
 stats = {}
-for sid in sorted(os.listdir(S)):
+import re as _re
+def _sk(x):
+    m = _re.match(r'(C\d+)-(?:r(\d+)-)?(.*)', x)
+    return (m.group(1), int(m.group(2) or 1), m.group(3)) if m else (x, 0, '')
+for sid in sorted(os.listdir(S), key=_sk):
     d = os.path.join(S, sid)
     if not os.path.exists(os.path.join(d, "meta.json")):
         continue
@@ -40,5 +44,5 @@ print("\n".join(rows))
 print()
 print("| round | kept changes | detected with a concrete replay on the first run |")
 print("|---|---|---|")
-for k in sorted(stats):
+for k in sorted(stats, key=lambda r: (not str(r).isdigit(), int(r) if str(r).isdigit() else 0, str(r))):
     print("| %s | %d | %d |" % (k, stats[k]["n"], stats[k]["first"]))
